@@ -470,6 +470,10 @@ func runExec(cfg *config) {
 			execGroupKeyQueries(d, rr)
 		}
 		if modes["confused"] {
+			if !(modes["join"] && !nullable) {
+				d.load(genNarrow(rr, "n1", 1, rr.Range(0, 4)))
+				d.load(genNarrow(rr, "n2", 2, rr.Range(0, 4)))
+			}
 			execConfusedQueries(d, rr, t1, t2)
 		}
 		d.close()
@@ -491,6 +495,11 @@ func execSelectQueries(d *xdb, r *hx.Rng, t xtable) {
 	for _, q := range []string{"SELECT a AS k, k AS c FROM t1 ORDER BY t1.k", "SELECT a AS k FROM t1 ORDER BY t1.k", "SELECT a AS k, k AS c FROM t1 ORDER BY k",
 		"SELECT a AS k, k AS c FROM t1 ORDER BY c", "SELECT a, k AS c FROM t1 ORDER BY t1.a"} {
 		d.query(q, "judged", "alias-capture") // (rows tied on the key come back in any order)
+	}
+	// ... and a name in WHERE is a column of the table, never the alias a select item gives to another column
+	for _, q := range []string{"SELECT a AS k FROM t1 WHERE k > 1", "SELECT id, a AS k, k AS a FROM t1 WHERE a >= 1 AND k < 3", "SELECT id AS a FROM t1 WHERE a = 2",
+		"SELECT k AS id, id AS k FROM t1 WHERE id > 2", "SELECT 5 AS a, id FROM t1 WHERE a < 5", "SELECT a AS b, id FROM t1 WHERE b = 'ant' OR b = 'cow'"} {
+		d.query(q, "exact", "alias-in-where")
 	}
 	// exhaustive boolean shapes up to 4 predicates
 	for n := 1; n <= 4; n++ {
@@ -625,7 +634,10 @@ func execJoinQueries(d *xdb, r *hx.Rng, t1, t2, t3 xtable) {
 	// every table of a FROM clause has its own name: the same table twice needs aliases, one alias
 	// serves one table
 	for _, q := range []string{"SELECT t1.a FROM t1 JOIN t1 ON t1.k = t1.k", "SELECT x.a FROM t1 x JOIN t2 x ON x.k = x.k", "SELECT x.a FROM t1 x LEFT JOIN t2 x ON x.a = 7",
-		"SELECT t1.a FROM t1 JOIN t2 ON t1.k = t2.k JOIN t1 ON t1.k = t2.k", "SELECT x.a, y.a FROM t1 x JOIN t1 y ON x.k = y.k"} {
+		"SELECT t1.a FROM t1 JOIN t2 ON t1.k = t2.k JOIN t1 ON t1.k = t2.k", "SELECT x.a, y.a FROM t1 x JOIN t1 y ON x.k = y.k",
+		// names are case-sensitive everywhere: aliases, table names and columns that differ in case only are different names
+		"SELECT E.id, e.id FROM t1 E JOIN t1 e ON E.k = e.id", "SELECT E.id, e.id FROM t1 E LEFT JOIN t1 e ON E.id = e.k", "SELECT T1.a FROM t1",
+		"SELECT t1.A FROM t1", "SELECT ID FROM t1", "SELECT x.id, X.id FROM t1 x JOIN t2 X ON x.k = X.k", "SELECT e.a FROM t1 E"} {
 		d.query(q, "judged", "table-names")
 	}
 	jts := []string{"JOIN", "INNER JOIN", "LEFT JOIN", "RIGHT JOIN"}
@@ -793,6 +805,14 @@ func execConfusedQueries(d *xdb, r *hx.Rng, t1, t2 xtable) {
 		"SELECT k, count(*) FROM t1 GROUP BY k ORDER BY k DESC LIMIT 2", "SELECT count(*) FROM t1 GROUP BY k", "SELECT 1", "SELECT 1 = 1, 'a' < 'b', TRUE",
 		"SELECT a = 1 FROM t1", "SELECT 1 < 'a'", "SELECT count(*)", "SELECT a", "SELECT * FROM t1 LIMIT 0", "SELECT * FROM t1 OFFSET 1000",
 		"SELECT d, avg(d) FROM t1 GROUP BY d", "SELECT b, c, count(a) FROM t1 GROUP BY b, c", "SELECT a = k, count(*) FROM t1",
+		// a bare literal or column where a truth value is expected, on EITHER side of AND / OR, in every clause
+		"SELECT * FROM t1 WHERE 1 OR a = 1", "SELECT * FROM t1 WHERE 'x' OR a = 1", "SELECT * FROM t1 WHERE 0 OR a = 1 OR b = 'x'", "SELECT 7 OR 1 = 1",
+		"SELECT 'a' OR TRUE", "SELECT * FROM t1 WHERE a OR a = 1", "SELECT * FROM t1 JOIN t2 ON 1 OR t1.k = t2.k", "SELECT * FROM t1 WHERE TRUE OR 1",
+		"SELECT * FROM t1 WHERE a = 1 OR 1 OR a = 2", "SELECT 1 OR 2", "SELECT * FROM t1 WHERE FALSE OR 'x'", "SELECT 1 = 1 OR 5 FROM t1",
+		// a star in a grouping query, on tables narrower and wider than the GROUP BY list, names that exist or not
+		"SELECT * FROM t1 GROUP BY a", "SELECT * FROM t1 GROUP BY nosuch", "SELECT * FROM n1 GROUP BY k", "SELECT * FROM n1 GROUP BY k, k",
+		"SELECT * FROM n1 GROUP BY nosuch", "SELECT * FROM n2 GROUP BY k, b", "SELECT * FROM n1 JOIN n1 x ON TRUE GROUP BY k", "SELECT * FROM n2 GROUP BY b, k, b",
+		"SELECT count(*) FROM t1 GROUP BY a", "SELECT count(*) FROM n1 GROUP BY k", "SELECT k FROM n1 GROUP BY k, k",
 	}
 	for _, q := range qs {
 		d.query(q, "judged", "confused")
